@@ -16,12 +16,12 @@ RULE = ("1-4 clients against one server over relays with loss/dup/reorder/delay 
         "sides at once, timeouts racing disconnects, late and duplicated handshake and disconnect frames, step cadences 5 ms..2 s; monitor automaton per connection on "
         "both endpoints' event iterators; plus a peer reconnecting from the same address while the server's entry for its previous connection is pending / active / closing / closed / gone. Non-trivial: at least one Connect and one terminal event. Distinct by (calls made, event shapes).")
 
-def reconnect_scenario(r, it, tier):
+def reconnect_scenario(r, it, tier, theme=None):
     """a peer that comes back from the SAME address (restarted process, NAT keeping its mapping) while the server's entry
     for its previous connection is pending, active, closing, closed or gone: a new Connect for the address only after the
     terminal event of the previous connection."""
     sim = E.EpSim(r, inter=it)
-    sim.srv(8, 8, r.pick([0, 1]), dict(E.DEFAULT_EP))
+    sim.srv(8, 8, r.pick([0, 1]) if theme is None else 0, dict(E.DEFAULT_EP))
     lat = r.pick([0, 5_000_000])
     nets = {"c2s": E.Net(latency=lat), "s2c": E.Net(latency=lat)}
     sim.nets = nets
@@ -30,17 +30,22 @@ def reconnect_scenario(r, it, tier):
     sim.run(r.range(3, 12), dt, nets)
     for round_ in range(r.range(1, 3)):
         how = r.pick(["sdiscnow", "sdisc", "sdiscnow", "cdiscnow", "vanish", "sdrop", "early"])
+        if theme == "unanswered" and round_ == 0:
+            how = r.pick(["sdiscnow", "sdisc"])    # default configuration (no handshake errors), a server-side disconnect nobody answers, then the address returns
         if how == "early":
             pass                                   # reconnect while the previous connection is still up (or still handshaking)
         elif how == "vanish":
             pass                                   # the old client just stops (its process died); nothing is sent
         else:
             sim.call(how, 0)
-        silent = how in ("sdiscnow", "sdisc", "vanish") and r.chance(2, 3)
+        silent = how in ("sdiscnow", "sdisc", "vanish") and (r.chance(2, 3) or (theme == "unanswered" and round_ == 0))
         if silent:                                 # the old client never answers again
             nets[(0, "s2c")] = E.Net(loss=1000)
-        sim.run(r.pick([0, 1, 3, int(3_000_000_000 // dt) + 1, int(25_000_000_000 // dt) + 1, int(25_000_000_000 // dt) + 1]) if not silent
-                else r.pick([1, int(25_000_000_000 // dt) + 1, int(25_000_000_000 // dt) + 1]), dt, nets)
+        wait = r.pick([0, 1, 3, int(3_000_000_000 // dt) + 1, int(25_000_000_000 // dt) + 1, int(25_000_000_000 // dt) + 1]) if not silent \
+            else r.pick([1, int(25_000_000_000 // dt) + 1, int(25_000_000_000 // dt) + 1])
+        if theme == "unanswered" and round_ == 0:
+            wait = int(25_000_000_000 // dt) + 1
+        sim.run(wait, dt, nets)
         nets.pop((0, "s2c"), None)
         sim.recli(0, dict(E.DEFAULT_EP), nets)
         sim.run(r.range(5, 30), dt, nets)
@@ -55,7 +60,7 @@ def streams(rng, tier, ctx):
             r = rng.fork()
             it.op("=== gen%d" % i)
             if i % 4 == 3:
-                sim = reconnect_scenario(r, it, tier)
+                sim = reconnect_scenario(r, it, tier, theme="unanswered" if i % 8 == 3 else None)
             elif i % 4 == 1:
                 sim = E.general_scenario(r, it, tier, crossing=True, lossy=(i % 8 == 1), variants=False, dt_choices=(5_000_000, 20_000_000), n_clients=r.range(1, 3), limits=(8, 8))
             else:
